@@ -37,7 +37,7 @@ DATA = {
     1: {"near": [[2.0], [3.0], [3.5], [9.0], [11.5]], "one": [[4.0]], "dups": [[2.5], [2.5], [2.5]], "spread": [[-3.0], [0.0], [2.5], [6.0], [10.0], [12.0]]},
     2: {"near": [[2.0, -2.0], [3.0, -3.5], [9.0, 2.0], [11.0, 3.0], [2.5, 2.5]], "one": [[0.0, 1.0]], "spread": [[-3.0, 2.0], [0.0, 3.0], [2.5, 2.5], [3.0, 0.5], [10.0, 2.5]]},
 }
-RELS = [("r", 2.0**-30), ("r", 0.5), ("r", 4.0), ("r", 16.0), ("r", 2.0**40), ("a", 0.0), ("a", 0.25), ("a", 0.5), ("a", 1.0)]
+RELS = [("r", 2.0**-30), ("r", 0.5), ("r", 4.0), ("r", 16.0), ("r", 2.0**40), ("a", 0.0), ("a", 0.25), ("a", 0.5), ("a", 1.0), ("aa", [0.25, 0.875, 0.5])]
 SWITCHES = [(a, b, c_) for a in (1, 0) for b in (1, 0) for c_ in (1, 0)]
 
 
@@ -88,7 +88,7 @@ def run_case(case):
     sw = tuple(case["sw"])
     kindr, val = case["rel"]
     relevance = val * 1.0 if kindr == "r" else None
-    alpha = val if kindr == "a" else 0.5
+    alpha = val if kindr == "a" else (np.array(val[: len(pr["w"])], float) if kindr == "aa" else 0.5)  # "aa": one fixed ratio per component
     tags0 = dict(sw="".join(map(str, sw)), rel=kindr)
     scale = float(max(np.abs(X).max(), np.abs(np.array(pr["mu"]) * s + o).max())) + 1.0
     ubm = _prior(pr, s, o)
@@ -152,6 +152,9 @@ def run_case(case):
         for cc in np.where(st["n"] == 0)[0] if sw[0] else []:
             c.count("zero_evidence_components")
             c.close(P[1][cc], prior[1][cc], "no_evidence", f"component {cc} without evidence must keep the prior mean", tags0, rtol=1e-15)
+        # the machine's own likelihood must be the likelihood of its visible parameters (no stale cache after the M-step)
+        if np.all(P[2] > 0) and np.all(P[0] > 0):
+            c.close(np.asarray(m.log_likelihood(X), float), og.ll(X, *P), "loglik_consistency", f"log_likelihood after iteration {k} vs definition on the visible parameters", tags0)
         if max(float(np.abs(P[i] - prior[i]).max()) for i in range(3)) > 1e-6:
             changed = True
         traj.append(P)
